@@ -288,6 +288,8 @@ theorem C02.applyRes_cmds (cfg : Cfg) (pol : Policy) (step : Nat) (tickEv : Ev) 
   | addCollected buf ev =>
     simp only [applyRes]
     split
+    · exact ⟨[], by simp⟩
+    split
     · exact ⟨_, rfl⟩
     · exact ⟨[], by simp⟩
   | deleteCollected buf =>
@@ -317,7 +319,7 @@ theorem C02.applyRes_rc (cfg : Cfg) (pol : Policy) (step : Nat) (tickEv : Ev) (d
     · split
       · split <;> rfl
       · rfl
-  | addCollected buf ev => simp only [applyRes]; split <;> rfl
+  | addCollected buf ev => simp only [applyRes]; split <;> (try split) <;> rfl
   | deleteCollected buf => simp only [applyRes]; split <;> rfl
   | addWaiter wid waiterEv req timeout ty => simp only [applyRes]; split <;> rfl
   | deleteWaiter wid => simp only [applyRes]; split <;> rfl
